@@ -257,7 +257,7 @@ def gen_sweep(ctx, rng, kind):
 
 def matrix_pair(m, master):
     """The m-th ordered pair of public functions of this run: every A once per 13 sweeps, B rotating with
-    VERIF_SEED and with the round, so that 13 seeds of the quick tier (or one thorough run) cover all 169."""
+    VERIF_SEED and with the round, so that 13 seeds of the quick tier (or one thorough run of 169) cover all 169."""
     from .workload import PUBLIC
     n = len(PUBLIC)
     return PUBLIC[m % n], PUBLIC[(m + master + m // n) % n]
